@@ -1024,7 +1024,8 @@ impl ProxyNode {
             thread_number: NonZeroUsize::new(1).expect("nz"),
             backend_conn_num: NonZeroUsize::new(opts.backend_conn_num.max(1)).expect("nz"),
             active_redirection: opts.active_redirection,
-            max_redirections: if opts.active_redirection { NonZeroUsize::new(if opts.max_redirections == 0 { 4 } else { opts.max_redirections as usize }) } else { None },
+            // 255 = the configuration value 0: no limit (commands are then forwarded without a UMFORWARD wrapper)
+            max_redirections: if opts.active_redirection && opts.max_redirections != 255 { NonZeroUsize::new(if opts.max_redirections == 0 { 4 } else { opts.max_redirections as usize }) } else { None },
             default_redirection_address: None,
             backend_batch_strategy: match opts.batch {
                 0 => BatchStrategy::Disabled,
